@@ -50,6 +50,12 @@ func replayFile(args []string) {
 		_ = json.Unmarshal(doc.Case, &c)
 		st, out, acc, p, imp := runBufHistory(c.H, c.Variant)
 		judgeBuffer(rep, *prop, c.H, c.Variant, st, out, acc, p, imp)
+		if c.Variant&4 != 0 {
+			_, out0, _, _, _ := runBufHistory(c.H, c.Variant&^4)
+			if string(out0) != string(out) {
+				rep.Violate("buffer:setmode-noop", "result with SetMode(current mode) before every write differs", c)
+			}
+		}
 		if c.Variant&2 != 0 {
 			_, out0, _, _, _ := runBufHistory(c.H, c.Variant&1)
 			if string(out0) != string(out) {
